@@ -1814,3 +1814,71 @@ func runCopiedRecord(p *Program, c *Collector, cr CopiedRecordSpec) {
 		c.Ob(cr.Props, "E7.copied-record", key, Discharged, "what belongs to the enclosing type is cleared on the copy", p.InstrPos(at), true)
 	}
 }
+
+// ---------------------------------------------------------------------------------------------
+// length of another text: a string is cut at an offset computed from the length of a *trimmed* (or otherwise shortened) copy of
+// one of its parts. The trimmed copy is shorter than what actually stands in the text whenever there was something to trim, so
+// the cut falls short: `t[len(TrimSpace(match[1:len(match)-1]))+2:]` leaves ") : …" behind for `( bob )`.
+func runTrimmedLength(p *Program, c *Collector, a FuncRuleSpec) {
+	n := 0
+	for _, fn := range expandFuncs(p, c, a.Funcs, a.Props...) {
+		if len(fn.Blocks) == 0 {
+			continue
+		}
+		sf := newSymFn(p, fn, 0)
+		sf.inlineOK = func(*ssa.Function) bool { return false }
+		k := 0
+		for _, b := range fn.Blocks {
+			for _, in := range b.Instrs {
+				sl, ok := in.(*ssa.Slice)
+				if !ok {
+					continue
+				}
+				if bt, ok := sl.X.Type().Underlying().(*types.Basic); !ok || bt.Info()&types.IsString == 0 {
+					continue
+				}
+				base := sf.val(sl.X)
+				for _, bnd := range []ssa.Value{sl.Low, sl.High} {
+					if bnd == nil {
+						continue
+					}
+					t := sf.val(bnd)
+					// the bound itself is len(T) or len(T) ± constant, T a trimmed text (a length buried in an argument of some
+					// call says nothing about the offset)
+					var trimmed *Sym
+					lenOf := func(x *Sym) *Sym {
+						if x.Op == "len" && len(x.Kids) == 1 && x.Kids[0].Op == "pred" && strings.HasPrefix(x.Kids[0].Name, "trim") {
+							return x.Kids[0]
+						}
+						return nil
+					}
+					if tr := lenOf(t); tr != nil {
+						trimmed = tr
+					} else if t.Op == "bin" && (t.Name == "+" || t.Name == "-") && len(t.Kids) == 2 {
+						for i := 0; i < 2; i++ {
+							if _, isC := symIntC(t.Kids[1-i]); isC {
+								if tr := lenOf(t.Kids[i]); tr != nil {
+									trimmed = tr
+								}
+							}
+						}
+					}
+					if trimmed == nil {
+						continue
+					}
+					k++
+					n++
+					key := "trimmedlength:" + p.FuncKey(fn) + " #" + strconv.Itoa(k)
+					if trimmed.String() == base.String() {
+						c.Ob(a.Props, "E7.trimmed-length", key, Discharged, "the text that is cut is the trimmed text itself", p.InstrPos(in), true)
+					} else {
+						c.Ob(a.Props, "E7.trimmed-length", key, Violated, a.What+": "+shortFn(p.FuncKey(fn))+" cuts "+clip(base.String(), 60)+" at an offset computed from the length of the trimmed text "+clip(trimmed.String(), 80)+": what stands in the text is longer whenever there was something to trim", p.InstrPos(in), false)
+					}
+				}
+			}
+		}
+	}
+	if n == 0 {
+		c.Ob(a.Props, "E7.trimmed-length", "trimmedlength:"+strings.Join(a.Funcs, ","), Discharged, a.What+": no text is cut by the length of a trimmed copy", "", true)
+	}
+}
